@@ -1403,3 +1403,8 @@ PROPS["C12"]["partial_gap"] += (' UPDATE 3 (sweep monitor, 38 theorems/examples 
     'all model transcripts (C12_sweep_monitor_sound, no exclusion, after the repair of its in-poll re-creation corner). Completeness of the monitor '
     '(that it catches every sweep that moves backwards) is not a theorem; it is exercised by the seeded changes R5-C12-1 / R5-C12-2 and the hand-made '
     'events of C12_sweep_monitor_example_rejected.')
+#  C06 "re-admit every station that is still online ... no live station permanently excluded": re-admission works through the
+#      GAP polls of the stations in the ring; the single-station obligation behind the recovery bound (a function of HSA and the
+#      gap factor) is that every GAP address is polled within the sweep bound, monitored as C12's sweep_bound and sweep_order in
+#      the fdl domain.  Seeded R5-C06-1 restarts the sweep at every slave reply: stations above a slave are never polled again.
+PROPS["C06"]["also"] = list(PROPS["C06"].get("also", [])) + [("C12", "sweep_bound"), ("C12", "sweep_order")]
